@@ -20,7 +20,7 @@ ASSUMPTIONS = ['operands are kept in core-domain formats (objects with n_word>52
                'steps whose documented result word is < 1 are rejected by the library (ValueError) and are skipped and counted by the generator']
 EXHAUSTIVE = False
 REQUIRED_CLASSES = {'op:arith': 500, 'op:shift': 200, 'op:bitwise': 200, 'op:reduce': 200, 'op:resize': 200, 'op:index': 100, 'op:construct': 300,
-                    'sat:float-huge': 500, 'sat:int-huge': 500, 'sat:container-huge': 300, 'objects-checked': 5000, 'accumulator': 300, 'wide-result-write': 1000}
+                    'sat:float-huge': 500, 'sat:int-huge': 500, 'sat:container-huge': 300, 'objects-checked': 5000, 'op:npgeneric': 150, 'accumulator': 300, 'wide-result-write': 1000}
 
 
 def check_object(x, where):
@@ -379,9 +379,36 @@ class World:
         self.nontrivial = self.nontrivial or self.near_end(x)
         self.produced(z, 'reduce/' + name)
 
+    def op_npgeneric(self, op):
+        """NumPy functions fxpmath does not implement itself (they are computed on the values and wrapped back into a fixed-point
+        object) and the statistics methods: whatever they return as a fixed-point object must be well-formed."""
+        x = self.pick(op['i'])
+        if x is None:
+            return self.skip('empty-pool')
+        name = op['name']
+        F = C.Fxp()
+        try:
+            if name in ('maximum', 'minimum'):
+                y = self.pick(op['j'])
+                if y is None or C.shape_of(y) not in ((), C.shape_of(x)):
+                    return self.skip('npgeneric-operand')
+                z = getattr(np, name)(x, y)
+            elif name in ('mean', 'std', 'var') and not op['numpy']:
+                if C.shape_of(x) == ():
+                    return self.skip('reduce-scalar')
+                z = getattr(x, name)()
+            else:
+                z = getattr(np, name)(x)
+        except Exception:                                   # noqa: BLE001  (rejection is not an ill-formed object)
+            return self.skip('npgeneric-raised')
+        if isinstance(z, F):
+            self.produced(z, 'npgeneric/' + name, reinsert=False)
+        else:
+            self.skip('npgeneric-not-fxp')
+
     def summarize(self, ctx, trace):
         groups = {'construct': 'construct', 'write': 'write', 'write_int': 'write', 'resize': 'resize', 'like': 'like', 'arith': 'arith', 'const': 'arith',
-                  'unary': 'arith', 'shift': 'shift', 'bitwise': 'bitwise', 'index': 'index', 'reduce': 'reduce', 'view': 'index',
+                  'unary': 'arith', 'shift': 'shift', 'bitwise': 'bitwise', 'index': 'index', 'reduce': 'reduce', 'npgeneric': 'npgeneric', 'view': 'index',
                   'resize_inplace': 'resize'}
         for op in trace:
             ctx.cls('op:' + groups[op['op']])
@@ -656,6 +683,8 @@ def op_strategies():
                                                  'flip': st.booleans()}),
         'reduce': st.fixed_dictionaries({'i': IDX, 'j': IDX, 'name': st.sampled_from(['sum', 'cumsum', 'max', 'min', 'sort', 'transpose', 'clip', 'diagonal', 'trace', 'dot', 'prod', 'cumprod']),
                                          'axis': st.one_of(st.none(), st.integers(0, 1)), 'numpy': st.booleans()}),
+        'npgeneric': st.fixed_dictionaries({'i': IDX, 'j': IDX, 'numpy': st.booleans(),
+                                            'name': st.sampled_from(['negative', 'absolute', 'square', 'maximum', 'minimum', 'mean', 'std', 'var', 'floor', 'ceil', 'sign', 'positive', 'rint'])}),
     }
     follow = st.lists(st.one_of(
         st.fixed_dictionaries({'op': st.just('resize_inplace'), 'grow': st.sampled_from([0, 1, 1, 2, 4, 8]), 'dfrac': st.sampled_from([0, 0, 0, 1, -1]),
